@@ -49,9 +49,15 @@ def run_mutant(meta, repo='/repo', keep=False, verbose=False, slot=0):
         out = q.stdout
         if 'does not build under the MIR engine' in out:
             return 'error', 'mutant does not compile:\n' + out[-1500:]
+        viol = [l for l in out.splitlines() if l.startswith('VIOLATION')]
+        if meta.get('expect_silent'):
+            # a behaviour-preserving twin: the property still holds, so any report is a false alarm of the checker
+            if q.returncode == 0 and not viol:
+                return 'silent', 'no report on a behaviour-preserving refactor (as required)'
+            alarms = [l.strip() for l in out.splitlines() if l.startswith('  ') and ': R' in l]
+            return 'false-alarm', (alarms[0] if alarms else out[-400:])[:300]
         want = meta['expect_key_contains']
         fired = [l for l in out.splitlines() if l.startswith('  ') and want in l]
-        viol = [l for l in out.splitlines() if l.startswith('VIOLATION')]
         if q.returncode == 1 and fired and viol:
             return 'caught', fired[0].strip()[:300]
         return 'missed', out[-1200:] if verbose else 'rule did not fire on %s' % want
@@ -67,6 +73,13 @@ def all_metas():
     for f in sorted(glob.glob(os.path.join(ROOT, 'mutants', '*.json'))):
         m = json.load(open(f))
         m['_name'] = os.path.basename(f)[:-5]
+        metas.append(m)
+    for f in sorted(glob.glob(os.path.join(ROOT, 'twins', '*.json'))):
+        m = json.load(open(f))
+        m['_name'] = 'twin_' + os.path.basename(f)[:-5]
+        m['_patch_path'] = os.path.join(ROOT, 'twins', m['patch'])
+        m['expect_silent'] = True
+        m['expect_key_contains'] = ''
         metas.append(m)
     for f in sorted(glob.glob(os.path.join(ROOT, 'seeded', '*', 'meta.json'))):
         s = json.load(open(f))
@@ -123,9 +136,9 @@ def main(argv):
     for name, st, info in run_many(metas, jobs=jobs, verbose=verbose):
         res.append((name, st, info))
         print('selftest %-40s %-8s %s' % (name, st, info), flush=True)
-        if st in ('missed', 'error'):
+        if st in ('missed', 'error', 'false-alarm'):
             bad += 1
-    print('selftest: %d mutants, %d caught, %d skipped, %d missed/error' % (len(res), sum(1 for r in res if r[1] == 'caught'), sum(1 for r in res if r[1] == 'skipped'), bad))
+    print('selftest: %d patches, %d caught, %d silent twins, %d skipped, %d missed/error/false-alarm' % (len(res), sum(1 for r in res if r[1] == 'caught'), sum(1 for r in res if r[1] == 'silent'), sum(1 for r in res if r[1] == 'skipped'), bad))
     return 1 if bad else 0
 
 
